@@ -30,6 +30,26 @@ os.environ.setdefault("NMEA2000_VERIF", "1")
 
 logging.disable(logging.CRITICAL)
 
+# Ambient conditions: every check repeats its quick tier in fresh interpreters started like this (see sub_pass / vf/main.py).
+#  A: python -O (assert statements are not executed), local time zone west of Greenwich, the library's DEBUG logging enabled,
+#     a host application that lowered the decimal context precision, a current directory that is not where the process started
+#  B: local time zone far east of Greenwich
+AMBIENTS = [
+    ("ambient-O-west-debuglog", ["-O"], {"TZ": "PST8PDT", "VF_AMBIENT": "debuglog,decimal6"}),
+    ("ambient-east", [], {"TZ": "XXX-14", "VF_AMBIENT": ""}),
+]
+if "debuglog" in os.environ.get("VF_AMBIENT", ""):
+    logging.disable(logging.NOTSET)
+    logging.getLogger().addHandler(logging.NullHandler())
+    logging.getLogger().setLevel(logging.DEBUG)
+    logging.getLogger("nmea2000").setLevel(logging.DEBUG)
+    for _n in ("hypothesis", "asyncio"):
+        logging.getLogger(_n).setLevel(logging.WARNING)
+if "decimal6" in os.environ.get("VF_AMBIENT", ""):
+    import decimal as _decimal
+    _decimal.setcontext(_decimal.Context(prec=6))
+    _decimal.DefaultContext.prec = 6
+
 
 import contextlib
 
@@ -61,28 +81,75 @@ import time as _time
 
 
 class _Clock:
-    offset = 0.0
+    offset = 0.0        # added to every clock (time passes)
+    wall = 0.0          # added to the wall clocks only (the system time is stepped: NTP correction, DST change, operator)
 
     def warp(self, seconds: float):
         _Clock.offset += seconds
 
+    def step_wall(self, seconds: float):
+        """The wall clock (time.time, datetime.now as the library sees it) jumps by `seconds` (may be negative); monotonic clocks do not."""
+        _Clock.wall += seconds
+
     def reset(self):
         _Clock.offset = 0.0
+        _Clock.wall = 0.0
 
 
 CLOCK = _Clock()
 if not getattr(_time, "_vf_wrapped", False):
     _real = {n: getattr(_time, n) for n in ("monotonic", "time", "perf_counter", "monotonic_ns", "time_ns", "perf_counter_ns")}
     _time.monotonic = lambda: _real["monotonic"]() + _Clock.offset
-    _time.time = lambda: _real["time"]() + _Clock.offset
+    _time.time = lambda: _real["time"]() + _Clock.offset + _Clock.wall
     _time.perf_counter = lambda: _real["perf_counter"]() + _Clock.offset
     _time.monotonic_ns = lambda: _real["monotonic_ns"]() + int(_Clock.offset * 1e9)
-    _time.time_ns = lambda: _real["time_ns"]() + int(_Clock.offset * 1e9)
+    _time.time_ns = lambda: _real["time_ns"]() + int((_Clock.offset + _Clock.wall) * 1e9)
     _time.perf_counter_ns = lambda: _real["perf_counter_ns"]() + int(_Clock.offset * 1e9)
     _time._vf_wrapped = True
     REAL_TIME = _real["time"]
 else:
     REAL_TIME = _time.time
+
+import datetime as _dtmod
+
+
+class _WallDatetime(_dtmod.datetime):
+    """What the library sees as `datetime` (module attribute replaced in the harness process only): now() follows the controllable
+    clocks above; everything it returns is a plain datetime."""
+
+    @classmethod
+    def now(cls, tz=None):
+        return _dtmod.datetime.now(tz) + _dtmod.timedelta(seconds=_Clock.offset + _Clock.wall)
+
+    @classmethod
+    def utcnow(cls):
+        return _dtmod.datetime.utcnow() + _dtmod.timedelta(seconds=_Clock.offset + _Clock.wall)
+
+    @classmethod
+    def today(cls):
+        return cls.now()
+
+    @classmethod
+    def strptime(cls, s, f):
+        return _dtmod.datetime.strptime(s, f)
+
+    @classmethod
+    def fromtimestamp(cls, *a, **k):
+        return _dtmod.datetime.fromtimestamp(*a, **k)
+
+
+def patch_library_clock():
+    import importlib
+    for name in ("decoder", "ioclient", "encoder", "utils", "message"):
+        try:
+            mod = importlib.import_module("nmea2000." + name)
+        except Exception:
+            continue
+        if getattr(mod, "datetime", None) is _dtmod.datetime:
+            mod.datetime = _WallDatetime
+
+
+patch_library_clock()
 
 NPROC = min(16, os.cpu_count() or 1)
 
